@@ -513,9 +513,14 @@ def run_wedge(c, out):
         tl = np.sort(np.round(rng.uniform(-70, 70, n), 2))
         while len(set(tl.tolist())) < n:
             tl = np.sort(np.round(rng.uniform(-70, 70, n), 2))
+        tiny = c["seed"] % 3 == 0 and n >= 2
+        if tiny:  # a refined near-zero tilt (numbers this small are printed in exponent notation by most writers)
+            j = int(np.argmin(np.abs(tl)))
+            tl[j] = [2e-05, -3.5e-05, 8e-06][c["seed"] % 9 // 3]
+            tl = np.sort(tl)
         tilts[t] = tl
         with open(name("tlt", "tlt", t), "w") as f:
-            f.write("".join("%.2f\n" % v for v in tl))
+            f.write("".join(("%r\n" % float(v)) if tiny else ("%.2f\n" % v) for v in tl))
         if c["ctf"]:
             U = np.round(rng.uniform(5000, 60000, n), 2)
             V = np.round(U + rng.uniform(-800, 800, n), 2)
